@@ -23,6 +23,12 @@ def setup_env(repo, home=None):
     global _HOME
     if _HOME is None:
         _HOME = home or tempfile.mkdtemp(prefix="ssepy-home.", dir=os.environ.get("TMPDIR", "/tmp"))
+        if home is None:
+            import atexit
+            import shutil
+            pid = os.getpid()
+            # removed when the process that created it exits (forked pool workers leave through os._exit and keep it)
+            atexit.register(lambda: shutil.rmtree(_HOME, ignore_errors=True) if os.getpid() == pid else None)
         os.environ["HOME"] = _HOME
         # the repo modules create these at import time without exist_ok: avoid a race between forked workers
         os.makedirs(os.path.join(_HOME, ".sse", "log"), exist_ok=True)
